@@ -92,6 +92,10 @@ def gen_diagram(rng):
         else:
             lines.append(f"{ref(b)} {rng.choice(ARROWS_L)} {ref(a)}")
     rng.shuffle(lines)
+    if rng.random() < 0.2 and not any(" " in nme for nme in names):
+        # tokens may be separated by any white space: several blanks, tabs
+        sep = rng.choice(["  ", "\t", " \t ", "\t\t"])
+        lines = [ln.replace(" ", sep) if rng.random() < 0.7 else ln for ln in lines]
     pre = [rng.choice(NOISE) for _ in range(rng.randint(0, 2))]
     post = [rng.choice(NOISE) for _ in range(rng.randint(0, 2))]
     text = "\n".join(pre + ["@startuml"] + lines + ["@enduml"] + post)
